@@ -613,12 +613,49 @@ func decimalRange(f *ssa.Function, at ssa.Instruction, intPart *ssa.Call) (bool,
 			if c, ok := ft.A.(*ssa.Call); ok && extCalleeIs(c, "shopspring/decimal", "Decimal", "Sign") && isZero(ft.B) {
 				sign = true
 			}
+			// the float the decimal was made from tested not negative (NaN is rejected before NewFromFloat: ARITH)
+			if isZero(ft.B) && decimalOfFloat(e, ft.A) {
+				sign = true
+			}
 		}
 	}
 	if gt && sign {
 		return true, "named exception: decimal-level rejections of a negative sign and of values above maxDecimal hold on every path"
 	}
 	return false, fmt.Sprintf("GreaterThan(maxDecimal) rejected=%v, negative sign rejected=%v", gt, sign)
+}
+
+// decimalOfFloat: decimal value d was made by decimal.NewFromFloat(x) (possibly shifted / multiplied afterwards).
+func decimalOfFloat(d ssa.Value, x ssa.Value) bool {
+	seen := map[ssa.Value]bool{}
+	var walk func(v ssa.Value) bool
+	walk = func(v ssa.Value) bool {
+		if v == nil || seen[v] {
+			return false
+		}
+		seen[v] = true
+		c, ok := v.(*ssa.Call)
+		if !ok {
+			if ph, ok := v.(*ssa.Phi); ok {
+				for _, e := range ph.Edges {
+					if !walk(e) {
+						return false
+					}
+				}
+				return len(ph.Edges) > 0
+			}
+			return false
+		}
+		if extCalleeIs(c, "shopspring/decimal", "", "NewFromFloat") {
+			return sameVal(c.Call.Args[0], x)
+		}
+		// a method of Decimal applied to such a decimal (Mul, Shift): sign-preserving scalings by a positive constant
+		if sc := c.Call.StaticCallee(); sc != nil && sc.Signature.Recv() != nil && (sc.Name() == "Mul" || sc.Name() == "Shift") && len(c.Call.Args) > 0 {
+			return walk(c.Call.Args[0])
+		}
+		return false
+	}
+	return walk(d)
 }
 
 // agreeOp: operator table of the named helpers.
@@ -919,6 +956,27 @@ func zcnDecimal(r *engine.Run, rule string) {
 				other = sc.Name() + " at " + r.P.Pos(c.Pos())
 			}
 		})
+		// every amount ParseZCN reports comes out of the decimal path: Coin(IntPart()) of the
+		// scaled decimal, whose range rejections ARITH demands; a shortcut that computes
+		// the amount another way has another range (the uint64 range of MultCoin instead of MaxInt64)
+		shortcut := ""
+		for _, ret := range engine.Returns(g) {
+			if len(ret.Results) != 2 || !nilConst(resultValue(ret, 1)) {
+				continue
+			}
+			v := resultValue(ret, 0)
+			okV := false
+			if cv, ok := v.(*ssa.Convert); ok {
+				if c, ok := cv.X.(*ssa.Call); ok && extCalleeIs(c, "shopspring/decimal", "Decimal", "IntPart") {
+					okV = true
+				}
+			}
+			if !okV {
+				shortcut = r.P.Pos(ret.Pos())
+			}
+		}
+		r.Check(shortcut == "", rule, fn(g)+"|amount from the decimal path", r.P.Pos(g.Pos()), "every success return is Coin(IntPart()) of the scaled decimal",
+			"ParseZCN reports an amount ("+shortcut+") that does not come out of its decimal path: the shortcut has its own range - a whole token amount scaled with MultCoin is accepted up to the uint64 range although parsing promises at most MaxInt64, and ToZCN / Int64 reject the amount parsing returned")
 		r.Check(exact >= 1 && other == "", rule, fn(g)+"|exact decimal of the argument", r.P.Pos(g.Pos()), "the amount is converted with decimal.NewFromFloat (shortest decimal that round-trips), the only constructor used on the argument",
 			"ParseZCN builds its decimal from the argument with "+other+" instead of the exact decimal.NewFromFloat: a constructor that rounds at a fixed scale makes the 'too many decimals' rejection unreachable (an amount with more than ten decimals is silently rounded) and changes the parsed amount of large fractional values")
 	}
